@@ -147,8 +147,10 @@ def meta_all(root="/verif/seeded"):
                 break
         ver = json.load(open(os.path.join(dd, "verify.json"))) if os.path.exists(os.path.join(dd, "verify.json")) else {}
         det = {}
-        for fn in ("sandbox.json", "detect.json"):          # detect.json (run against /repo itself) wins
-            if os.path.exists(os.path.join(dd, fn)):
+        fns_ = [fn for fn in ("sandbox.json", "detect.json") if os.path.exists(os.path.join(dd, fn))]
+        fns_.sort(key=lambda fn: os.path.getmtime(os.path.join(dd, fn)))       # the most recent run wins
+        for fn in fns_:
+            if True:
                 for k, v in json.load(open(os.path.join(dd, fn))).items():
                     det[k] = {"alarm": v["rc"] != 0 and v["violations"] > 0, "violation_lines": v["violations"], "with_concrete_input": v["concrete"],
                               "source": fn}
